@@ -317,7 +317,9 @@ impl Sim {
         }
         st.decisions += 1;
         let me_ok = !me_blocked && elig.contains(&me);
-        let default = if me_ok { me } else { elig[0] };
+        // default: keep running; when blocked, the next eligible thread after me (round robin, so
+        // that nobody starves when several threads wait for each other)
+        let default = if me_ok { me } else { elig.iter().copied().find(|t| *t > me).unwrap_or(elig[0]) };
         let pick = match &mut st.chooser {
             Chooser::Default => default,
             Chooser::Tape { tape, pos } => {
@@ -744,11 +746,17 @@ pub fn acked(fid: u32) -> Option<bool> {
 /// Wait (in simulated time) for the acknowledgement of flush `fid`. None = stalled without ack.
 pub fn wait_ack(fid: u32) -> Option<bool> {
     sim().progress();
+    let stalls0 = lock().stalls;
     loop {
         if let Some(ok) = acked(fid) {
             return Some(ok);
         }
         if !sim().blocked("wait_ack") {
+            return acked(fid);
+        }
+        // a waiter that is not the driver never sees `false`; it gives up after the whole
+        // system has been found stalled a few times since it started waiting
+        if lock().stalls >= stalls0 + 6 {
             return acked(fid);
         }
     }
